@@ -361,6 +361,14 @@ func c07CellsFor(s *skeleton, withFixed bool) []c07Cell {
 		{"fall-off/return-in-if-only", "c := true\nfunc g() int {\n\tif c {\n\t\treturn 1\n\t}\n}\n", false},
 		{"fall-off/return-then-statement", "func g() int {\n\treturn 1\n\tprint(1)\n}\n", false},
 		{"fall-off/last-return", "c := true\nfunc g() int {\n\tif c {\n\t\treturn 2\n\t}\n\treturn 1\n}\n", true},
+		{"fall-off/last-is-print", "func g() int {\n\tprint(1)\n}\n", false},
+		{"fall-off/last-is-assignment", "func g() int {\n\tx := 1\n\tx = 2\n}\n", false},
+		{"fall-off/last-is-for", "func g() int {\n\tfor i := 0; i < 1; i++ {\n\t\treturn 1\n\t}\n}\n", false},
+		{"fall-off/last-is-call", "func h() int {\n\treturn 1\n}\nfunc g() int {\n\th()\n}\n", false},
+		{"fall-off/two-results", "func g() (int, string) {\n\tprint(1)\n}\n", false},
+		{"fall-off/slice-result", "func g() []int {\n\tx := []int{1}\n\tx[0] = 2\n}\n", false},
+		{"fall-off/nested-return-then-print", "c := true\nfunc g() int {\n\tif c {\n\t\treturn 1\n\t}\n\tprint(2)\n}\n", false},
+		{"fall-off/ok-return-after-loop", "func g() int {\n\tfor i := 0; i < 1; i++ {\n\t\tprint(i)\n\t}\n\treturn 3\n}\nprint(g())\n", true},
 		{"fall-off/void-ok", "func g() {\n\tprint(1)\n}\n", true},
 		{"params/duplicate", "func g(a int, a int) {\n}\n", false},
 		{"params/duplicate-types", "func g(a int, a string) {\n}\n", false},
@@ -453,7 +461,7 @@ func (s *skeleton) headerSeesLater(h string, u int) bool {
 }
 
 func checkC07(c *Check) {
-	c.Rule = "exhaustive over one block skeleton with 24 sites (top level, if / else-if / else, nested if, 3-clause for, range, while-for, switch cases inside and outside loops, a function body with nested blocks): every ordered pair (definition site, use site) x definition kind x use kind, redefinition variants, header variables (parameter, for-init, range), function definition x call site, break/continue/return/func at every site, import boundary uses at every site, plus fixed scope cells; expected verdict from a scope calculator over the block tree; both targets. Every cell is a distinct program; distinct = SHA-256 of source"
+	c.Rule = "exhaustive over one block skeleton with 24 sites (top level, if / else-if / else, nested if, 3-clause for, range, while-for, switch cases inside and outside loops, a function body with nested blocks): every ordered pair (definition site, use site) x definition kind x use kind, redefinition variants, header variables (parameter, for-init, range), function definition x call site, break/continue/return/func at every site, import boundary uses at every site, plus fixed scope cells; a third of the cells again with every closing brace moved onto the preceding statement line; expected verdict from a scope calculator over the block tree; both targets. Every cell is a distinct program; distinct = SHA-256 of source"
 	c.Assumptions = []string{"scope calculator: definition to end of block; header variables within their construct; functions after their top-level definition, not inside themselves; function bodies see globals defined earlier; no shadowing", "break directly inside a switch outside any loop is not asserted (legal in Go, excluded as undefined behaviour by C01)"}
 	cells := c07Cells(c.Thorough())
 	c.Exhaustive = true
@@ -476,6 +484,21 @@ func checkC07(c *Check) {
 					d = stripDir(ia.Err.Error(), idir)
 				}
 				c.Violation("imported/"+cell.key, fmt.Sprintf("the same program as an imported file: expected %s, bash=%s batch=%s %s", cell.expect, verdictOf(ia), verdictOf(ib), d), map[string]string{"main.tsh": msrc, "lib.tsh": cell.src})
+			}
+		}
+		if cell.extra == nil && (i%3 == 1 || strings.HasPrefix(cell.key, "fixed/")) {
+			// the same program with every closing brace moved to the end of the statement line before it
+			// (an accepted layout): scopes, placement and the fall-off rule must not depend on it
+			if joined := joinClosingBraces(cell.src); joined != cell.src {
+				ja, jb, jdir := transpileBoth(joined, nil)
+				c.Eval("joined\x00"+joined, true)
+				if verdictOf(ja) != cell.expect || verdictOf(jb) != cell.expect {
+					d := ""
+					if ja.Err != nil {
+						d = stripDir(ja.Err.Error(), jdir)
+					}
+					c.Violation("joined-braces/"+cell.key, fmt.Sprintf("closing braces on the statement line: expected %s, bash=%s batch=%s %s", cell.expect, verdictOf(ja), verdictOf(jb), d), map[string]string{"main.tsh": joined, "original.tsh": cell.src})
+				}
 			}
 		}
 		c.Eval(cell.src, true)
@@ -510,4 +533,25 @@ func checkC07(c *Check) {
 	}
 	c.Extra["observed_accepts"] = na
 	c.Extra["observed_rejects"] = len(cells) - na
+}
+
+// joinClosingBraces moves a closing brace that stands at the beginning of a line to the end of the
+// previous line when that line is a plain statement (not a block opener, a case label, another
+// closing brace or empty).
+func joinClosingBraces(src string) string {
+	lines := strings.Split(src, "\n")
+	out := []string{}
+	for _, l := range lines {
+		t := strings.TrimSpace(l)
+		if strings.HasPrefix(t, "}") && len(out) > 0 {
+			prev := strings.TrimSpace(out[len(out)-1])
+			if prev != "" && !strings.HasSuffix(prev, "{") && !strings.HasSuffix(prev, ":") && prev != "}" && !strings.HasPrefix(prev, "} else") && !strings.HasPrefix(prev, "//") && !strings.Contains(prev, "//") && !(strings.HasPrefix(prev, "var ") && !strings.Contains(prev, "=")) {
+				// (a declaration without value must be followed by a line break in this language; not a scope matter)
+				out[len(out)-1] += " " + t
+				continue
+			}
+		}
+		out = append(out, l)
+	}
+	return strings.Join(out, "\n")
 }
